@@ -135,6 +135,7 @@ type Specs struct {
 	PropFuncs map[string][]string
 	WalkDirectives []string
 	Ghosts    map[string]int // ghost (uninterpreted) spec functions: name -> arity
+	GhostByte map[string]bool // ghost functions declared "ghost f(..) byte": values are bytes (0..255)
 	Folds     map[string]*Fold
 	Orbits    map[string]*Orbit
 	SharedConsts []SharedConst // "sharedconst GLOBAL [in FUNC] -- reason": package-level memory that may be referenced from heap objects because it is never written
@@ -293,9 +294,20 @@ func (S *Specs) parseFile(path string) error {
 		case "ghost":
 			// ghost name(a, b): uninterpreted specification function over integers/pointers
 			head := strings.TrimSpace(rest)
+			isByte := false
+			if strings.HasSuffix(head, " byte") {
+				isByte = true
+				head = strings.TrimSpace(strings.TrimSuffix(head, " byte"))
+			}
 			op := strings.Index(head, "(")
 			if op < 0 || !strings.HasSuffix(head, ")") {
-				return fail(fmt.Errorf("ghost name(params)"))
+				return fail(fmt.Errorf("ghost name(params) [byte]"))
+			}
+			if isByte {
+				if S.GhostByte == nil {
+					S.GhostByte = map[string]bool{}
+				}
+				S.GhostByte[strings.TrimSpace(head[:op])] = true
 			}
 			n := 0
 			for _, p := range strings.Split(head[op+1:len(head)-1], ",") {
